@@ -92,6 +92,23 @@ def _():
         return f"a one-character family is rejected: {e}"
 
 
+@witness("C19", "stl-non-string-value-error")
+def _():
+    # repaired for C09 (fa4cd8f, witness start-tc-non-string there); here: the class of the error for every kind of non-string
+    from ttconv.stl.config import STLReaderConfiguration
+    bad = []
+    for key in ("program_start_tc", "font_stack"):
+        for v in (True, False, 0, 5, 2.5, float("nan"), [], ["TCP"], {}, {"a": 1}):
+            try:
+                c = STLReaderConfiguration.parse({key: v}); bad.append(f"{key}={v!r} accepted: {getattr(c, key)!r}")
+            except ValueError:
+                pass
+            except Exception as e:      # pylint: disable=broad-except
+                bad.append(f"{key}={v!r}: {type(e).__name__}")
+        if getattr(STLReaderConfiguration.parse({key: None}), key) is not None: bad.append(f"{key}=null not kept")
+    if bad: return "; ".join(bad[:6])
+
+
 # ---------------------------------------------------------------- still recorded (what is left of them)
 @witness("C19", "undocumented-values-accepted")
 def _():
@@ -119,3 +136,31 @@ def _():
         IMSCWriterConfiguration.parse({"fps": "0" * 4300 + "25/1"})
     except ValueError as e:
         return f"fps with a 4302-digit numerator rejected: {str(e)[:60]}"
+
+
+@witness("C19", "rejection-not-a-value-error")
+def _():
+    import logging
+    from ttconv.scc.config import SccReaderConfiguration
+    import ttconv.model as model
+    bad = []
+    for v in (True, 5, ["left"], None):
+        try:
+            SccReaderConfiguration.parse({"text_align": v})
+        except ValueError:
+            pass
+        except (AttributeError, TypeError) as e:
+            bad.append(f"scc_reader.text_align={v!r}: {type(e).__name__}: {e}")
+    try:
+        model.ContentDocument().set_lang(5)
+    except ValueError:
+        pass
+    except TypeError as e:
+        bad.append(f"general.document_lang=5: TypeError: {e}")
+    try:
+        logging.Logger("c19-witness").setLevel(2.5)
+    except ValueError:
+        pass
+    except TypeError as e:
+        bad.append(f"general.log_level=2.5: TypeError: {str(e)[:50]}")
+    if bad: return "; ".join(bad)
